@@ -176,6 +176,10 @@ func c07Check(c c07Case, r *h.Rec) error {
 		var an *analysis.Analysis
 		oc := guard(func() { an = analysis.NewAnalysisFromFile(ld.Root, ld.FileName) })
 		if oc.Panicked {
+			if first != nil {
+				// state surviving from an earlier load (a package-level cache) is the only thing that changed
+				return h.Violf("analysis #%d of the same sources is refused (%s) although analysis #1 succeeded\n%s", i+1, clip(oc.Msg, 200), src())
+			}
 			r.Refused++
 			return nil
 		}
@@ -283,6 +287,9 @@ func c07RealReloads(c c07Case, r *h.Rec) error {
 		}
 		var an *analysis.Analysis
 		if oc := guard(func() { an = analysis.NewAnalysisFromFile(pkg, file) }); oc.Panicked {
+			if first != nil {
+				return h.Violf("analysis after reload #%d of the same module is refused (%s) although the first one succeeded\n%s", i+1, clip(oc.Msg, 200), clip(c.Spec.Text(), 3000))
+			}
 			return nil
 		}
 		outs := c07Outputs(an, gopathRoot(c.Spec))
